@@ -228,7 +228,7 @@ def _fn_from_method(name):
 for _n in ("exp", "log", "sqrt", "sin", "cos", "tanh", "sigmoid", "abs", "neg", "square", "clamp", "clamp_min", "clamp_max",
            "sum", "mean", "transpose", "unsqueeze", "squeeze", "reshape", "permute", "diagonal", "pow", "add", "sub", "mul",
            "div", "log1p", "expm1", "erf", "rsqrt", "reciprocal", "any", "all", "numel", "isnan", "flatten", "lt", "gt", "le", "ge",
-           "eq", "ne", "masked_fill"):
+           "eq", "ne", "masked_fill", "nan_to_num"):
     T["torch." + _n] = _fn_from_method(_n)
 
 
